@@ -942,6 +942,16 @@ class VerilogOperator(ast.AST):
     def toVerilog(self):
         str = ''
         
+        if (self.op == '&&' or self.op == '||'):
+            # Python's and/or return one of the operands (not a 1 bit value)
+            # 'a and b' is b if a else a, 'a or b' is a if a else b
+            left = '(' + Python2VerilogTranspiler.toVerilog(self.left) + ')'
+            right = '(' + Python2VerilogTranspiler.toVerilog(self.right) + ')'
+            if (self.op == '&&'):
+                return '(' + left + ' ? ' + right + ' : ' + left + ')'
+            else:
+                return '(' + left + ' ? ' + left + ' : ' + right + ')'
+        
         if not(self.left is None):
             # skip for unary operators
             if (isinstance(self.left, VerilogOperator)):
